@@ -28,6 +28,18 @@
 (* expression can stand in for another" starts with the copy standing in   *)
 (* for its original.                                                       *)
 (*                                                                         *)
+(* Round 5: the FORM in which a container-valued constructor argument is   *)
+(* given (C01_Values!MapForms) is part of a New event's spec, and the      *)
+(* caller who built o_i keeps the mutable objects it handed over: event    *)
+(* Mutate(i) = the caller changes, through its own references, every live  *)
+(* container it passed when it built o_i (rebinds the first entry, adds an *)
+(* entry).  That is no operation on an expression at all, so no live       *)
+(* object may change (Immutable); a node built here from well-typed        *)
+(* arguments is hashable (BuiltHashable) and holds, field by field, what   *)
+(* it was given up to the documented normalisations (BuiltAsGiven) - so    *)
+(* the == / hash / dict clauses compare it with the node built from the    *)
+(* canonical form.                                                         *)
+(*                                                                         *)
 (*   Check(S, ev, r)   S/M-layer: is observation r allowed by the property *)
 (*                     in state S?  "OK" | "SKIP" | name of failing clause *)
 (*   Post(S, ev, r)    successor state                                     *)
@@ -44,6 +56,7 @@ EXTENDS C01_Values
 CONSTANTS HashMode,   \* "perfect" | "real" | "collide"
           Bug         \* "none" | "DropField" | "StaleHash" | "CopyKeepsHash" | "NaNIdentity"
                       \* | "ClassMemo" | "PickleKeepsHash" | "NoIdentityPath" | "KwDropped"
+                      \* | "NominalHashable"
 VARIABLES objs, dict, last, cmemo
 
 NoHash == [t |-> "None"]
@@ -66,6 +79,8 @@ EvReplace(i, j, fn) == Ev("Replace", i, j, fn, "", 0, NoneV)   \* replace(o_i, f
 EvTouch(i, md)     == Ev("Touch", i, 0, "", md, 0, NoneV)      \* md: stock rebuild cim str repr deps
 EvPut(i, v)        == Ev("DictPut", i, 0, "", "", v, NoneV)
 EvGet(j)           == Ev("DictGet", j, 0, "", "", 0, NoneV)
+\* the caller of o_i's constructor mutates the live containers it passed to it
+EvMutate(i)        == Ev("Mutate", i, 0, "", "", 0, NoneV)
 
 Res(k, b, h, exc, v, proj) == [k |-> k, b |-> b, h |-> h, exc |-> exc, v |-> v, proj |-> proj]
 
@@ -112,12 +127,16 @@ DictKeysDistinctOn(S) ==
         a # b => EqM(S, S.dict[a].key, S.dict[b].key) # "T"
 
 ValidIdx(S, i) == i \in 1..Len(S.objs)
+\* an object that was built by its constructor in this interpreter at this step
+BuiltHere(ev, r) == ev.op = "New" /\ ev.md = "" /\ r.k = "new"
+\* the arguments are ones the constructor accepts and makes a hashable node of
+BuildsHashable(spec) == ~IsErr(NormDeep(spec)) /\ Hashable(NormDeep(spec))
 Creates(ev) == ev.op \in {"New", "Copy", "Replace", "Touch"}
 
 \* Is the recorded step well-formed enough to be judged at all?
 Judgeable(S, ev, r) ==
     /\ ev.op \in {"New", "Hash", "Eq", "Ne", "SetAttr", "DelAttr", "Copy", "Replace", "Touch",
-                  "DictPut", "DictGet"}
+                  "DictPut", "DictGet", "Mutate"}
     /\ ev.op # "New" => ValidIdx(S, ev.i)
     \* whether an expression can be pickled at all is C17's business
     /\ r.k # "nopickle"
@@ -126,7 +145,11 @@ Judgeable(S, ev, r) ==
     /\ IF Creates(ev) /\ r.k = "new" THEN Len(r.proj) = Len(S.objs) + 1
                                      ELSE Len(r.proj) = Len(S.objs)
     /\ \A k \in 1..Len(r.proj) : r.proj[k].tree.t = "N" /\ Decidable(r.proj[k].tree)
-    /\ \A k \in 1..Len(r.proj) : Hashable(r.proj[k].tree)
+    \* unhashable field values are out of model - except in an object built here just now
+    \* from arguments the model's constructor makes a hashable node of (BuiltHashable)
+    /\ \A k \in 1..Len(r.proj) :
+          \/ Hashable(r.proj[k].tree)
+          \/ (k > Len(S.objs) /\ BuiltHere(ev, r) /\ BuildsHashable(ev.spec))
     /\ ev.op = "DictPut" => ~PutAmbiguous(S, ev.i)
 
 (***************************************************************************)
@@ -200,6 +223,13 @@ CopyEq(a, b) == IF HasNaN(a) \/ HasNaN(b) THEN EraseNaNs(a) = EraseNaNs(b) ELSE 
 CopyKeepsFieldsStep(S, ev, r) ==
     (ev.op = "Copy" /\ r.k = "new") => CopyEq(S.objs[ev.i].tree, r.proj[Len(r.proj)].tree)
 
+\* round 5: whatever form its container-valued arguments were given in, a node built here
+\* is hashable, and holds what it was given (up to the documented normalisations)
+BuiltHashableStep(S, ev, r) ==
+    (BuiltHere(ev, r) /\ BuildsHashable(ev.spec)) => Hashable(r.proj[Len(r.proj)].tree)
+BuiltAsGivenStep(S, ev, r) ==
+    (BuiltHere(ev, r) /\ ~IsErr(NormDeep(ev.spec))) => CopyEq(NormDeep(ev.spec), r.proj[Len(r.proj)].tree)
+
 HashStableStep(S, ev, r) ==
     /\ \A k \in 1..Len(S.objs) :
           (S.objs[k].hk = 1 /\ r.proj[k].hashed = 1) => r.proj[k].h = S.objs[k].hid
@@ -212,6 +242,8 @@ Check(S, ev, r) ==
     ELSE IF ~ImmutableStep(S, ev, r) THEN "Immutable"
     ELSE IF ~HashStableStep(S, ev, r) THEN "HashStable"
     ELSE IF ~CopyKeepsFieldsStep(S, ev, r) THEN "CopyKeepsFields"
+    ELSE IF ~BuiltHashableStep(S, ev, r) THEN "BuiltHashable"
+    ELSE IF ~BuiltAsGivenStep(S, ev, r) THEN "BuiltAsGiven"
     ELSE IF ev.op = "Hash" /\ r.k # "ok" THEN "HashRaises"
     ELSE IF ev.op \in {"Eq", "Ne"} /\ r.k # "ok" THEN "EqRaises"
     ELSE IF ev.op = "Eq" /\ Contradicts(r.b = 1, EqM(S, ev.i, ev.j)) THEN "EqIsPyEq"
@@ -382,10 +414,37 @@ Kept(t) == IF Unlooked(t.cls) = {} THEN t
 \* the constructor call (dataclasses.replace builds the new object through the constructor)
 AmbientDefault == KI(0)
 
-Predict(S, ev) ==
+\* round 5.  The constructor's normalisation as the code performs it.  Bug =
+\* "NominalHashable": "is the keyword mapping hashable?" is answered from its TYPE (does it
+\* have a __hash__ slot) instead of by hashing it - a read-only view of the caller's dict is
+\* kept as it is
+RECURSIVE ImplNorm(_)
+ImplNorm(v) ==
+    IF Bug # "NominalHashable" THEN NormDeep(v)
+    ELSE CASE v.t = "T" -> [v EXCEPT !.c = [i \in 1..Len(v.c) |-> ImplNorm(v.c[i])]]
+           [] v.t = "M" -> [v EXCEPT !.kv = [i \in 1..Len(v.kv) |-> [v.kv[i] EXCEPT !.v = ImplNorm(v.kv[i].v)]]]
+           [] v.t = "N" -> LET w == [v EXCEPT !.f = [i \in 1..Len(v.f) |-> ImplNorm(v.f[i])]] IN
+                           IF w.cls = "CallWithKwargs" /\ w.f[3].t = "M" /\ w.f[3].mt \in NominallyHashableForms
+                           THEN w ELSE Norm(w)
+           [] OTHER -> v
+\* what the caller's mutation (Mutate) does to a value that still reads the caller's
+\* containers: first entry rebound, one entry added
+RECURSIVE Mutated(_)
+MutKv(kv) == (IF Len(kv) > 0 THEN [kv EXCEPT ![1].v = KI(888)] ELSE kv) \o << KwE("zz_late", KI(777)) >>
+Mutated(v) ==
+    CASE v.t = "T" -> [v EXCEPT !.c = [i \in 1..Len(v.c) |-> Mutated(v.c[i])]]
+      [] v.t = "M" -> IF v.mt \in LiveForms THEN [v EXCEPT !.kv = MutKv(v.kv)]
+                      ELSE [v EXCEPT !.kv = [i \in 1..Len(v.kv) |-> [v.kv[i] EXCEPT !.v = Mutated(v.kv[i].v)]]]
+      [] v.t = "N" -> [v EXCEPT !.f = [i \in 1..Len(v.f) |-> Mutated(v.f[i])]]
+      [] OTHER -> v
+\* hash(o_i) raises
+Unh(os, I) == \E i \in I : ~Hashable(os[i].tree)
+RaisesTE(os) == Res("err", 0, NoHash, "TypeError", 0, Proj(os))
+
+PredictH(S, ev) ==
     LET os == S.objs IN
     CASE ev.op = "New" ->
-           LET t0 == Norm(ev.spec)
+           LET t0 == ImplNorm(ev.spec)
                t  == IF IsErr(t0) \/ ev.md = "" THEN t0 ELSE Arrived(t0, Len(os) + 1) IN
            IF IsErr(t) THEN Res("err", 0, NoHash, t.s, 0, Proj(os))
            \* an unpickled object starts without a cached hash, whatever happened to it in
@@ -394,6 +453,9 @@ Predict(S, ev) ==
            THEN Res("new", 0, NoHash, "", 0,
                     Proj(Append(os, [tree |-> t, hashed |-> 1, hk |-> 1, hid |-> ForeignHash(t)])))
            ELSE Res("new", 0, NoHash, "", 0, Proj(Append(os, FreshObj(t))))
+      \* the constructor copied what it was given (or it was immutable): nothing to see
+      [] ev.op = "Mutate" ->
+           Res("ok", 0, NoHash, "", 0, Proj([os EXCEPT ![ev.i].tree = Mutated(os[ev.i].tree)]))
       [] ev.op = "Hash" ->
            LET os2 == WithHashed(S.cm, os, {ev.i}) IN
            Res("ok", 0, os2[ev.i].hid, "", 0, Proj(os2))
@@ -430,7 +492,7 @@ Predict(S, ev) ==
            ELSE IF FieldIndex(a.cls, ev.fn) \in NoInit(a.cls)
            THEN Res("err", 0, NoHash, "ValueError", 0, Proj(os))
            ELSE LET fi == FieldIndex(a.cls, ev.fn)
-                    t  == Norm([a EXCEPT !.f = [k \in 1..Len(a.f) |->
+                    t  == ImplNorm([a EXCEPT !.f = [k \in 1..Len(a.f) |->
                                                   IF k = fi THEN b.f[fi]
                                                   ELSE IF k \in NoInit(a.cls) THEN AmbientDefault
                                                   ELSE a.f[k]]])
@@ -464,6 +526,12 @@ Predict(S, ev) ==
                            /\ (S.dict[e].key = ev.i \/ ImplEq(S2, S.dict[e].key, ev.i)) }
            IN Res("ok", 0, NoHash, "", IF hits = {} THEN -1
                   ELSE S.dict[CHOOSE e \in hits : \A e2 \in hits : e <= e2].v, Proj(os2))
+
+\* an operation that hashes an object whose hash raises, raises
+Predict(S, ev) ==
+    IF \/ (ev.op \in {"Hash", "DictPut", "DictGet"} /\ Unh(S.objs, {ev.i}))
+       \/ (ev.op \in {"Eq", "Ne"} /\ Unh(S.objs, EqHashes(S, ev.i, ev.j)))
+    THEN RaisesTE(S.objs) ELSE PredictH(S, ev)
 
 \* A-layer drift: does the recorded step differ from what the transcription predicts
 \* (in anything but the hash values themselves)?
@@ -519,7 +587,7 @@ ModelPost(S, ev, r) ==
                              ELSE IF r.proj[k].hashed = 1 THEN r.proj[k].h
                              ELSE IF old THEN S.objs[k].hid ELSE NoHash
                  IN [tree |-> r.proj[k].tree, hashed |-> r.proj[k].hashed, hk |-> hk, hid |-> hid]],
-     dict |-> IF ev.op = "DictPut" THEN DictAfterPut(S, ev.i, ev.v) ELSE S.dict,
+     dict |-> IF ev.op = "DictPut" /\ r.k = "ok" THEN DictAfterPut(S, ev.i, ev.v) ELSE S.dict,
      cm   |-> CmAfter(S, ev)]
 
 Step(ev) ==
@@ -540,6 +608,7 @@ DictFindsEqual  == Deviated \/ (DictKeysDistinctOn(Cur) /\ last.chk \notin {"Dic
 NeverStale      == Deviated \/ \A k \in 1..Len(objs) : objs[k].hashed = 1 => objs[k].hid = HashFn(objs[k].tree)
 NoSkipInModel   == last.chk # "SKIP"
 CopyFaithful    == last.chk # "CopyKeepsFields"
+BuiltOK         == last.chk \notin {"BuiltHashable", "BuiltAsGiven"}
 \* --- action properties ---------------------------------------------------
 Immutable  == [][Deviated' \/ \A k \in 1..Len(objs) : objs'[k].tree = objs[k].tree]_<<objs, dict, last, cmemo>>
 HashStable == [][\A k \in 1..Len(objs) : objs[k].hk = 1 => objs'[k].hid = objs[k].hid]_<<objs, dict, last, cmemo>>
